@@ -64,6 +64,28 @@ func (g *genState) stages(depth int, path []int, sub bool) [][]*GNode {
 			case x < 10 && !pass && !(sub && last):
 				n.Kind = "pass"
 				pass = true
+			case x >= 28 && x < 36 && depth < g.maxDep:
+				// a ToolsNode between two conversion lambdas, as a sub graph
+				n.Kind, n.Typed = "sub", "tools"
+				n.SubDag = r.Chance(1, 4)
+				g.subs = append(g.subs, p)
+				mk := func(k int) *GNode {
+					g.uid++
+					q := append(append([]int(nil), p...), k)
+					g.units = append(g.units, q)
+					return &GNode{UID: g.uid, Key: k}
+				}
+				a, t, b := mk(1), mk(2), mk(3)
+				a.Kind, a.Conv, a.Natives, a.Chunks = "lambda", true, 1, 1
+				b.Kind, b.Conv, b.Natives, b.Chunks = "lambda", true, 1, 1
+				t.Kind = "tools"
+				g.lambdas = append(g.lambdas, append(append([]int(nil), p...), 2)) // also a target for "below a component"
+				for i, nc := 0, r.Range(1, 3); i < nc; i++ {
+					g.uid++
+					t.Calls = append(t.Calls, &GCall{UID: g.uid, Natives: r.Range(1, 3), Fails: r.Chance(1, 12),
+						DelayUs: r.Intn(300), Chunks: r.Range(1, 3)})
+				}
+				n.Stages = [][]*GNode{{a}, {t}, {b}}
 			case x < 28 && depth < g.maxDep:
 				n.Kind = "sub"
 				n.SubDag = r.Chance(1, 4)
@@ -128,6 +150,11 @@ func genGraph(r *lib.Rng, tier string) *Case {
 	c.Stages = g.stages(0, nil, false)
 	c.Paradigm = []string{"invoke", "stream", "collect", "transform"}[r.Intn(4)]
 	c.Dag = r.Chance(1, 3)
+	// the same layered shape through the Chain API when it fits (no two parallel stages in a
+	// row, no shared *Lambda: a chain node is appended once)
+	if chainable(c.Stages) && r.Chance(1, 3) {
+		c.Chain, c.Dag = true, false
+	}
 	c.InChunks = r.Range(1, 3)
 	// options for the whole graph: 0-5 separate WithCallbacks (three single ones give len 3 cap 4)
 	nU := []int{0, 1, 2, 3, 3, 3, 4, 5}[r.Intn(8)]
@@ -185,6 +212,22 @@ func genGraph(r *lib.Rng, tier string) *Case {
 	}
 	c.Opts = opts
 	return c
+}
+
+func chainable(stages [][]*GNode) bool {
+	prevPar := false
+	for _, st := range stages {
+		if len(st) > 1 && prevPar {
+			return false
+		}
+		prevPar = len(st) > 1
+		for _, n := range st {
+			if n.Shared > 0 {
+				return false
+			}
+		}
+	}
+	return true
 }
 
 // ---------------------------------------------------------------- the graph under test
@@ -352,7 +395,7 @@ func (rr *runRec) build(stages [][]*GNode, shared map[int]*compose.Lambda) (*com
 			case "pass":
 				err = g.AddPassthroughNode(key, compose.WithNodeName(unitName(n.UID)))
 			case "sub":
-				sub, e := rr.build(n.Stages, shared)
+				sub, e := rr.subGraph(n, shared)
 				if e != nil {
 					return nil, e
 				}
@@ -382,6 +425,74 @@ func (rr *runRec) build(stages [][]*GNode, shared map[int]*compose.Lambda) (*com
 		}
 	}
 	return g, nil
+}
+
+type compilable interface {
+	Compile(ctx context.Context, opts ...compose.GraphCompileOption) (compose.Runnable[vmap, vmap], error)
+}
+
+// buildTop builds the top level of a case as a Graph or as a Chain.
+func (rr *runRec) buildTop(c *Case) (compilable, error) {
+	if !c.Chain {
+		return rr.build(c.Stages, map[int]*compose.Lambda{})
+	}
+	ch := compose.NewChain[vmap, vmap]()
+	shared := map[int]*compose.Lambda{}
+	for _, st := range c.Stages {
+		if len(st) == 1 {
+			n := st[0]
+			o := []compose.GraphAddNodeOpt{compose.WithNodeKey(nodeKey(n.Key)), compose.WithNodeName(unitName(n.UID))}
+			switch n.Kind {
+			case "lambda":
+				ch.AppendLambda(rr.lambda(n), o...)
+			case "pass":
+				ch.AppendPassthrough(o...)
+			case "sub":
+				sub, err := rr.subGraph(n, shared)
+				if err != nil {
+					return nil, err
+				}
+				if n.SubDag {
+					o = append(o, compose.WithGraphCompileOptions(compose.WithNodeTriggerMode(compose.AllPredecessor)))
+				}
+				ch.AppendGraph(sub, o...)
+			default:
+				return nil, fmt.Errorf("bad node kind %q in a chain", n.Kind)
+			}
+			continue
+		}
+		p := compose.NewParallel()
+		for _, n := range st {
+			o := []compose.GraphAddNodeOpt{compose.WithNodeKey(nodeKey(n.Key)), compose.WithNodeName(unitName(n.UID))}
+			out := fmt.Sprintf("p%d", n.UID)
+			switch n.Kind {
+			case "lambda":
+				p.AddLambda(out, rr.lambda(n), o...)
+			case "pass":
+				p.AddPassthrough(out, o...)
+			case "sub":
+				sub, err := rr.subGraph(n, shared)
+				if err != nil {
+					return nil, err
+				}
+				if n.SubDag {
+					o = append(o, compose.WithGraphCompileOptions(compose.WithNodeTriggerMode(compose.AllPredecessor)))
+				}
+				p.AddGraph(out, sub, o...)
+			default:
+				return nil, fmt.Errorf("bad node kind %q in a chain", n.Kind)
+			}
+		}
+		ch.AppendParallel(p)
+	}
+	return ch, nil
+}
+
+func (rr *runRec) subGraph(n *GNode, shared map[int]*compose.Lambda) (*compose.Graph[vmap, vmap], error) {
+	if n.Typed == "tools" {
+		return rr.buildToolsSub(n)
+	}
+	return rr.build(n.Stages, shared)
 }
 
 func inputChunks(k int) []vmap {
@@ -509,6 +620,19 @@ func (x *expectation) graph(uid int, stages [][]*GNode, opts []GOpt, path []int)
 				if x.graph(n.UID, n.Stages, subOpts(n.Key, opts), p) {
 					stageFailed = true
 				}
+			case "tools":
+				// the ToolsNode and every tool call of the message execute once; the calls are
+				// addressed through the ToolsNode (same node path); a failed call fails the node
+				x.execs[n.UID]++
+				for _, c := range n.Calls {
+					x.execs[c.UID]++
+					x.paths[c.UID], x.kind[c.UID] = p, "call"
+					if c.Fails {
+						x.failed[c.UID] = true
+						x.failed[n.UID] = true
+						stageFailed = true
+					}
+				}
 			}
 		}
 		if stageFailed {
@@ -581,7 +705,7 @@ type graphObs struct {
 	Detail   string   `json:"detail,omitempty"`
 	Result   string   `json:"result"`
 	Baseline string   `json:"baseline"`
-	Events   [][3]int `json:"events"` // sorted (handler, timing, run info)
+	Events   [][3]int `json:"events"` // (handler, timing, run info) in the order of invocation
 }
 
 func runGraph(c *Case) lib.Result {
@@ -615,7 +739,7 @@ func runGraph(c *Case) lib.Result {
 		// baseline: the same graph without any handler
 		callbacks.InitCallbackHandlers(nil)
 		r0 := &runRec{execs: map[int][]bodyRec{}, shared: map[int]int{}}
-		g0, err := r0.build(c.Stages, map[int]*compose.Lambda{})
+		g0, err := r0.buildTop(c)
 		if err != nil {
 			panic("harness: graph does not build: " + err.Error())
 		}
@@ -626,7 +750,7 @@ func runGraph(c *Case) lib.Result {
 		obs.Baseline = call(run0, c.Paradigm, c.InChunks)
 
 		rr = &runRec{execs: map[int][]bodyRec{}, shared: map[int]int{}}
-		g1, err := rr.build(c.Stages, map[int]*compose.Lambda{})
+		g1, err := rr.buildTop(c)
 		if err != nil {
 			panic("harness: graph does not build: " + err.Error())
 		}
@@ -711,7 +835,16 @@ func runGraph(c *Case) lib.Result {
 	for uid := range x.paths {
 		known[unitName(uid)] = uid
 	}
+	sawEnd := map[string]bool{}
 	for _, e := range evts {
+		// pairing in time: every start invocation of a unit precedes its end / error invocations
+		if e.T == 0 || e.T == 3 {
+			if sawEnd[e.Name] {
+				fail("graph-pairing", "handler %d: start of unit %s after the unit's end was reported", e.H, e.Name)
+			}
+		} else {
+			sawEnd[e.Name] = true
+		}
 		k := hk{e.H, e.Name}
 		a := cnt[k]
 		a[e.T]++
@@ -725,8 +858,16 @@ func runGraph(c *Case) lib.Result {
 			fail("graph-timing", "handler %d invoked with timing %d it does not ask for", e.H, e.T)
 		}
 		wantComp := "Lambda"
-		if x.kind[uid] == "graph" || x.kind[uid] == "sub" {
+		switch x.kind[uid] {
+		case "graph", "sub":
 			wantComp = "Graph"
+			if uid == 0 && c.Chain {
+				wantComp = "Chain"
+			}
+		case "tools":
+			wantComp = "ToolsNode"
+		case "call":
+			wantComp = "Tool"
 		}
 		if e.Comp != wantComp {
 			fail("graph-wrongnode", "handler %d unit %s: component %q, want %q", e.H, e.Name, e.Comp, wantComp)
@@ -779,6 +920,14 @@ func runGraph(c *Case) lib.Result {
 				fail("graph-exec", "node %s executed %d times, the case says %d", unitName(uid), got, x.execs[uid])
 			}
 		}
+		if x.kind[uid] == "call" {
+			rr.mu.Lock()
+			got := len(rr.execs[uid])
+			rr.mu.Unlock()
+			if got != x.execs[uid] {
+				fail("graph-exec", "tool call %s executed %d times, the case says %d", unitName(uid), got, x.execs[uid])
+			}
+		}
 		for _, sp := range c.Handlers {
 			a := cnt[hk{sp.ID, unitName(uid)}]
 			starts, ends, errs := a[0]+a[3], a[1]+a[4], a[2]
@@ -807,23 +956,25 @@ func runGraph(c *Case) lib.Result {
 		res.Sig = sig
 	}
 
-	// ---- observation for the model
+	// ---- observation for the model: per unit (run info) the sequence of (handler, timing)
+	// in the order of invocation; units in ascending order
 	for _, e := range evts {
 		obs.Events = append(obs.Events, [3]int{e.H, e.T, parseInfo(e.Name)})
 	}
-	sort.Slice(obs.Events, func(i, j int) bool {
-		a, b := obs.Events[i], obs.Events[j]
-		if a[0] != b[0] {
-			return a[0] < b[0]
-		}
-		if a[1] != b[1] {
-			return a[1] < b[1]
-		}
-		return a[2] < b[2]
-	})
-	var evs []string
+	// canonical: grouped by unit, within a unit in the order of invocation
+	sort.SliceStable(obs.Events, func(i, j int) bool { return obs.Events[i][2] < obs.Events[j][2] })
+	perUnit := map[int][]string{}
+	var infos []int
 	for _, e := range obs.Events {
-		evs = append(evs, fmt.Sprintf("(%d, %d, %d)", e[0], e[1], e[2]))
+		if _, ok := perUnit[e[2]]; !ok {
+			infos = append(infos, e[2])
+		}
+		perUnit[e[2]] = append(perUnit[e[2]], fmt.Sprintf("(%d, %d)", e[0], e[1]))
+	}
+	sort.Ints(infos)
+	var evs []string
+	for _, i := range infos {
+		evs = append(evs, fmt.Sprintf("(%d, [%s])", i, strings.Join(perUnit[i], "; ")))
 	}
 	var optT []string
 	nDes := 0
@@ -881,9 +1032,19 @@ func runGraph(c *Case) lib.Result {
 	}
 	res.Tags = []string{"kind:graph", "paradigm:" + c.Paradigm, "nodes:" + bucket(nNodes), fmt.Sprintf("parallel:%d", maxPar),
 		fmt.Sprintf("nesting:%d", depth), fmt.Sprintf("opts-undesignated:%d", len(c.Opts)-nDes), fmt.Sprintf("opts-designated:%d", nDes),
-		fmt.Sprintf("globals:%d", len(c.Globals)), "class:" + obs.Class, fmt.Sprintf("dag:%v", c.Dag)}
+		fmt.Sprintf("globals:%d", len(c.Globals)), "class:" + obs.Class, fmt.Sprintf("dag:%v", c.Dag), fmt.Sprintf("chain:%v", c.Chain)}
 	if nShared > 0 {
 		res.Tags = append(res.Tags, "shared-lambda")
+	}
+	nTools, nCalls := 0, 0
+	allNodes(c.Stages, func(n *GNode, d int) {
+		if n.Kind == "tools" {
+			nTools++
+			nCalls += len(n.Calls)
+		}
+	}, 0)
+	if nTools > 0 {
+		res.Tags = append(res.Tags, "tools-node", fmt.Sprintf("tool-calls:%d", nCalls))
 	}
 	if !optsOKDeep(c.Stages, c.Opts) {
 		res.Tags = append(res.Tags, "bad-designation")
@@ -903,6 +1064,12 @@ func coqStages(stages [][]*GNode) string {
 				ns = append(ns, fmt.Sprintf("GPass %d %d", n.UID, n.Key))
 			case "sub":
 				ns = append(ns, fmt.Sprintf("GSub %d %d %d %s", n.UID, n.Key, n.UID, coqStages(n.Stages)))
+			case "tools":
+				var cs []string
+				for _, c := range n.Calls {
+					cs = append(cs, fmt.Sprintf("(%d, %d, %d, %s)", c.UID, c.UID, c.Natives&3, lib.CoqBool(c.Fails)))
+				}
+				ns = append(ns, fmt.Sprintf("GTools %d %d %d [%s]", n.UID, n.Key, n.UID, strings.Join(cs, "; ")))
 			}
 		}
 		sts = append(sts, "["+strings.Join(ns, "; ")+"]")
